@@ -206,8 +206,6 @@ class C12(vlib.Driver):
         leaves = [{}, {"0": 1}, {"0": 1, "1": 2}]
         for obs, akind, mode, lv, copy in itertools.product(c12_env.OBS_KINDS, c12_env.ACT_KINDS,
                                                             ("term", "trunc", "mixed"), range(3), (True, False)):
-            if quick and (hash((obs, akind, mode, lv, copy)) + 0) % 1 != 0:
-                continue
             nag = 2 if lv < 2 else 3
             envs = [{"lens": [1], "mode": mode, "leave": {}},
                     {"lens": [2, 3], "mode": mode, "leave": leaves[lv]},
